@@ -8,7 +8,7 @@ if os.path.isdir(d + '/demo'): shutil.rmtree(d + '/demo')
 shutil.copytree(os.path.join(out, 'demo'), d + '/demo')
 json.dump({'id': sid, 'property': prop, 'summary': summary, 'needs_to_manifest': needs,
            'detected_by': {'check': check, 'first_run': first, 'result': now},
-           'source': 'independent sub-agent (round 5) given only the property text and a scratch worktree',
+           'source': 'independent sub-agent (round 6) given only the property text and a scratch worktree',
            'confirmed': {'test_suite_with_change': 'cargo test --workspace --no-fail-fast --offline: all passed (tools/seed_confirm.sh)',
                          'demo_with_change': 'demo/demo.sh exits 1', 'demo_without_change': 'demo/demo.sh exits 0 (REDO_BIN=/repo/target/debug/redo)'}},
           open(d + '/meta.json', 'w'), indent=1)
